@@ -313,9 +313,14 @@ def cdg_line(src: str, str_raises: bool) -> str:
     return f"cdg {int(str_raises)} {hexs(src)}"
 
 
-def tool_line(name: str, caps=(), ver: int = 0, exc: str | None = None) -> str:
+# how a tool gets into the registry: the convenience wrapper, the Tool-protocol entry point with the library's own
+# SimpleTool or with a foreign object (capabilities under the alternative attribute name), the constructor's `tools=`
+ROUTES = ["fn", "simple", "obj", "ctor"]
+
+
+def tool_line(name: str, caps=(), ver: int = 0, exc: str | None = None, route: str | None = None) -> str:
     beh = f"x{ver}:{exc}" if exc else f"s{ver}"
-    return f"tool {hexs(name)} {hexs(name.lower())} {','.join(caps) or '-'} {beh}"
+    return f"tool {hexs(name)} {hexs(name.lower())} {','.join(caps) or '-'} {beh}" + (f" r={route}" if route else "")
 
 
 EXC_KINDS = ["nodoc_empty", "emptydoc_empty", "blankdoc_empty", "doc_empty", "nodoc_msg", "nonstr_msg", "none_msg",
@@ -551,7 +556,33 @@ class _State:
             exc = beh.split(":")[1] if beh[0] == "x" else None
             self.tools = [x for x in self.tools if x[0] != name] + [(name, caps)]
             self.tool_beh[name] = (ver, exc)
-            self.m.register_function(name, self._tool_fn(name, ver, exc), required_capabilities=self._caps(caps))
+            route = t[5][2:] if len(t) > 5 else "fn"
+            fn, capset = self._tool_fn(name, ver, exc), self._caps(caps)
+            if route == "simple":
+                self.m.engulf_tool(M.SimpleTool(name=name, description="d", func=fn, required_capabilities=capset))
+            elif route == "obj":
+                class Foreign:       # any object with the protocol's attributes; capabilities under the other name
+                    description = "foreign"
+                    capabilities = capset
+
+                    def __init__(self, n, f):
+                        self.name, self._f = n, f
+
+                    def execute(self, *a, **k):
+                        return self._f(*a, **k)
+                self.m.engulf_tool(Foreign(name, fn))
+            elif route == "ctor":
+                # the constructor's `tools=`: a new engine with the same settings, the tools registered so far and this one
+                old = self.m
+                objs = [v for k, v in old.tools.items() if k != name] + \
+                       [M.SimpleTool(name=name, description="d", func=fn, required_capabilities=capset)]
+                self.m = self.cls(timeout_seconds=old.timeout, max_ros=old.max_ros, silent=old.silent,
+                                  allowed_capabilities=old.allowed_capabilities, tools=objs)
+                if "SAFE_FUNCTIONS" in old.__dict__:
+                    self.m.SAFE_FUNCTIONS = old.SAFE_FUNCTIONS
+                self.m._ros_accumulated = old._ros_accumulated
+            else:
+                self.m.register_function(name, fn, required_capabilities=capset)
             return "ok", None
         if op == "untool":
             name = unhexs(t[1])
@@ -1372,7 +1403,7 @@ def header(rng, facts, names=None, tools=None, **cfg):
     seed = rng.randrange(1, 10 ** 6)
     lines = [tables_line(facts, names), cfg_line(facts, seed, **cfg)]
     for (n, caps) in tools or []:
-        lines.append(f"tool {hexs(n)} {hexs(n.lower())} {','.join(caps) or '-'}")
+        lines.append(tool_line(n, caps, route=rng.choice(ROUTES + ["fn", "fn"])))
     return lines
 
 
